@@ -520,6 +520,9 @@ def gen_map(g, name, data, depth, allow_errors):
         s["ItemSelector"] = draw_template(g, data, in_map=True)
         s["ItemSelector"]["k.$"] = "$$.Map.Item.Value"
         g.feature("ItemSelector")
+    elif d(st.integers(0, 11)) == 0:
+        s["ItemSelector"] = {}          # the empty template: every iteration's input is {}
+        g.feature("ItemSelector")
     key = d(st.sampled_from(["ItemProcessor", "Iterator"]))
     sample_item = items[0] if items else 0
     ictx = {"Execution": {"Input": {}}, "StateMachine": {"Id": None}, "State": {"Name": name},
